@@ -82,6 +82,18 @@ def check(run, driver):
         "the null. Non-trivial = null has >=2 distinct values or is fully tied with the observed value; distinct by content hash"
     )
     thorough = run.tier == "thorough"
+    # ---- translator: the comparison operators of the verdict and of the p-value are read off the CURRENT source and must be those of
+    #      the model's decision (decideTestG_codeShape: with them the generic decision IS decideTest, which the theorems are about)
+    import gen_tables
+    try:
+        sh = gen_tables.shuffle_shape()
+        src = ("import CEModel.Discovery\n/-! GENERATED from /repo by harness/gen_tables.py -- do not edit. -/\n"
+               f"def Generated.shuffleShape : CE.Disc.DecisionShape := {{ passOp := .{sh['passOp']}, pOp := .{sh['pOp']} }}\n"
+               "example : Generated.shuffleShape = CE.Disc.codeShape := by decide\n")
+        ok, out = gen_tables.obligation_standalone("ObC03", src)
+        run.oblige(f"ObC03 operators read off shuffle_test (Pass: observed {sh['passOp']} threshold; P_value: mean(null {sh['pOp']} observed)) = model's codeShape (decide)", ok, out if not ok else "")
+    except gen_tables.Untranslatable as e:
+        run.extra["translator"] = f"UNTRANSLATABLE ({e}) -- the tail of shuffle_test no longer has the recognised shape; the obligation is not established on this run and the property is decided by the correspondence alone"
     rng = run.rng
     reqs, meta = [], []
     nscript = 1500 if thorough else 400
